@@ -4,7 +4,7 @@ package main
 // pointer (o2 := o1, range over a slice of pointers, an object stored inside another object built
 // here, a callee that returns its argument) all denote the same object, so a later store through any
 // of them must be visible through all.  The classes are computed flow-insensitively (union-find over
-// the function's variables); an object register is never copied by SAlias/SPhi - it is defined by
+// the function's variables - outside Coq); an object register is never copied by SAlias/SPhi - it is defined by
 // SMake / SOpaque / being a parameter and only changes by SStore (which can only lower it).
 //
 // Objects the function was handed are NOT trusted to be fresh: storing or returning one is an escape
@@ -176,13 +176,21 @@ func (t *bodyTr) objVar(id *ast.Ident) types.Object {
 		return nil
 	}
 	v, ok := t.p.info.ObjectOf(id).(*types.Var)
-	if !ok || v.IsField() || !isObjLike(v.Type()) {
+	if !ok || v.IsField() || !(isObjLike(v.Type()) || isIfaceVar(v)) {
 		return nil
 	}
 	if v.Pkg() != nil && v.Parent() == v.Pkg().Scope() {
 		return nil // package-level variable
 	}
 	return v
+}
+
+// isIfaceVar: a variable of a (non-error) interface type: it may come to hold an object that reaches bytes
+// (a *bytes.Reader as io.Reader, the reader hkdf.New returns): it takes part in the may-alias classes and
+// gets a register the first time it receives such a value
+func isIfaceVar(v *types.Var) bool {
+	t := v.Type()
+	return t != nil && types.IsInterface(t) && t.String() != "error" && kindOf(t) == kNone
 }
 
 // refRoots: the variables whose object the value of e may refer to (empty if e is not a reference)
@@ -228,7 +236,7 @@ func (t *bodyTr) refRoots0(e ast.Expr) []types.Object {
 				el = kv.Value
 			}
 			el = t.stripIface(el)
-			if tt := t.typeOf(el); isRefType(tt) || isAddrOf(el) {
+			if tt := t.typeOf(el); isRefType(tt) || refObject(tt) || isAddrOf(el) {
 				out = append(out, t.refRoots(el)...)
 			}
 		}
@@ -292,14 +300,34 @@ func (t *bodyTr) refRoots0(e ast.Expr) []types.Object {
 					continue
 				}
 				a = t.stripIface(a)
-				if tt := t.typeOf(a); isRefType(tt) || isAddrOf(a) {
+				if tt := t.typeOf(a); isRefType(tt) || refObject(tt) || isAddrOf(a) {
 					out = append(out, t.refRoots(a)...)
 				}
 			}
 			return out
 		}
+		// a callee outside the library whose result may be a view of (or hold) its arguments: generated proto
+		// getters (kd := key.GetKeyData()), slices.Clip, bytes.NewReader ...
+		if fn != nil {
+			if eff, ok := extLookup(fn); ok && ((eff.res != "" && eff.res != "fresh" && eff.res != "opaque") || len(eff.holds) > 0) {
+				var out []types.Object
+				if recv != nil {
+					out = append(out, t.refRoots(recv)...)
+				}
+				for _, a := range e.Args {
+					out = append(out, t.refRoots(t.stripIface(a))...)
+				}
+				return out
+			}
+		}
 	}
 	return nil
+}
+
+func isBuiltin(o types.Object) bool { _, ok := o.(*types.Builtin); return ok }
+
+func isIfaceT(t types.Type) bool {
+	return t != nil && types.IsInterface(t) && t.String() != "error"
 }
 
 func isAddrOf(e ast.Expr) bool {
@@ -318,7 +346,7 @@ func (t *bodyTr) computeClasses() {
 	flow := func(lhs ast.Expr, rhs ast.Expr) {
 		rhs = t.stripIface(rhs)
 		rt := t.typeOf(rhs)
-		if !(isRefType(rt) || isAddrOf(rhs)) {
+		if !(isRefType(rt) || refObject(rt) || isAddrOf(rhs) || (rt != nil && types.IsInterface(rt))) {
 			return
 		}
 		rs := t.refRoots(rhs)
@@ -335,7 +363,7 @@ func (t *bodyTr) computeClasses() {
 			} else if len(n.Rhs) == 1 {
 				rs := t.refRoots(n.Rhs[0])
 				for _, l := range n.Lhs {
-					if isRefType(t.typeOf(l)) {
+					if isRefType(t.typeOf(l)) || refObject(t.typeOf(l)) || isIfaceT(t.typeOf(l)) {
 						t.unifyAll(append(t.refRoots(l), rs...))
 					}
 				}
@@ -348,22 +376,29 @@ func (t *bodyTr) computeClasses() {
 			} else if len(n.Values) == 1 {
 				rs := t.refRoots(n.Values[0])
 				for _, nm := range n.Names {
-					if isRefType(t.typeOf(nm)) {
+					if isRefType(t.typeOf(nm)) || refObject(t.typeOf(nm)) || isIfaceT(t.typeOf(nm)) {
 						t.unifyAll(append(t.refRoots(nm), rs...))
 					}
 				}
 			}
 		case *ast.RangeStmt:
-			if n.Value != nil && isRefType(t.typeOf(n.Value)) {
+			if n.Value != nil && (isRefType(t.typeOf(n.Value)) || refObject(t.typeOf(n.Value))) {
 				t.unifyAll(append(t.refRoots(n.Value), t.refRoots(n.X)...))
 			}
 		case *ast.CompositeLit:
 			t.unifyAll(t.refRoots(n))
 		case *ast.CallExpr:
+			// the objects a call's result may be (or hold) are one class, also when the result is used anonymously
+			if id, ok := unparen(n.Fun).(*ast.Ident); !ok || t.p.info.Uses[id] == nil || !isBuiltin(t.p.info.Uses[id]) {
+				t.unifyAll(t.refRoots(n))
+			}
 			// append(a, b) links a and b even when the result is dropped; a closure call binds its parameters
 			if id, ok := unparen(n.Fun).(*ast.Ident); ok {
 				if b, ok := t.p.info.Uses[id].(*types.Builtin); ok && b.Name() == "append" {
 					t.unifyAll(t.refRoots(n))
+				}
+				if b, ok := t.p.info.Uses[id].(*types.Builtin); ok && b.Name() == "copy" && len(n.Args) == 2 {
+					t.unifyAll(append(t.refRoots(n.Args[0]), t.refRoots(n.Args[1])...))
 				}
 				if v, ok := t.p.info.Uses[id].(*types.Var); ok {
 					if lit := t.closures0[v]; lit != nil {
@@ -393,7 +428,68 @@ func (t *bodyTr) classReg(o types.Object) int {
 	r := t.newReg(root.Name())
 	t.regOf[root] = r
 	t.objRegs[r] = true
+	t.classRegs[r] = true
 	return r
+}
+
+// bind: the class register R also denotes the object in the TEMPORARY register v from now on
+func (t *bodyTr) bind(R, v int, at ast.Node) {
+	if R == v || R < 0 || v < 0 {
+		return
+	}
+	if t.classRegs[v] || v < t.np {
+		t.fail("an object variable is bound to a live object of another may-alias class (line %d)", t.line(at))
+		return
+	}
+	t.objRegs[v] = true // a temporary used as an object (e.g. the register of a nil literal)
+	t.emit(&node{op: "bind", r: R, v: v, pos: -1, line: t.line(at)})
+}
+
+// objResult: the register of an object-valued call result that may BE one of the argument objects vs, or a new
+// object holding them (opq: or memory that is not ours).  If one of them is an object of a local class the
+// result belongs to that class (the arguments were unified before); a result over a single parameter object
+// is that parameter's register; otherwise it is a new object holding the byte slices, or unowned memory.
+func (t *bodyTr) objResult(call ast.Node, vs []int, opq bool) int {
+	var objs []int
+	local := -1
+	for _, v := range vs {
+		if t.objRegs[v] {
+			objs = append(objs, v)
+			if local < 0 && t.classRegs[v] && v >= t.np {
+				local = v
+			}
+		}
+	}
+	switch {
+	case local >= 0:
+		if opq {
+			t.store(local, t.objTmpOpaque(call), call)
+		}
+		for _, v := range vs {
+			if v != local {
+				t.store(local, v, call)
+			}
+		}
+		return local
+	case len(objs) == 1 && len(vs) == 1 && !opq && (objs[0] < t.np || t.classRegs[objs[0]]):
+		return objs[0]
+	case opq:
+		return t.objTmpOpaque(call)
+	}
+	for _, v := range objs {
+		if v < t.np || t.classRegs[v] {
+			return t.objTmpOpaque(call) // several of the caller's objects: not followed
+		}
+	}
+	T := t.objTmpMake(call)
+	for _, v := range vs {
+		if t.objRegs[v] {
+			t.bind(T, v, call)
+		} else {
+			t.store(T, v, call)
+		}
+	}
+	return T
 }
 
 func (t *bodyTr) singleton(o types.Object) bool {
